@@ -479,10 +479,15 @@ class Engine:
                 return self.module_name(m2, n2, depth + 1)
             m, n = mod.imports[name]
             full = m if n is None else m + '.' + n
-            if full in ('struct', 'zlib', 'time'):
+            if full in ('struct', 'zlib', 'time', 'sys'):
                 return PyObj('module', full)
             if full in self.exc.parent:
                 return PyObj('excclass', full)
+            if full in ('twisted.internet.defer.CancelledError', 'twisted.internet.error.CancelledError'):
+                return PyObj('excclass', 't.CancelledError')
+            if full.startswith('twisted.') and full.split('.')[-1] in self.exc.parent and full.split('.')[-1][0].isupper() \
+                    and full.split('.')[-1].endswith(('Error', 'Done', 'Lost', 'Cancelled', 'Called')):
+                return PyObj('excclass', full.split('.')[-1])
             return PyObj('extern', full)
         return None
 
@@ -1239,6 +1244,12 @@ class Engine:
 
     def assign(self, tgt, v, fr):
         if isinstance(tgt, ast.Name):
+            if isinstance(v, V) and v.ty[0] in ('list', 'dict') and v.ty[1] == ANY:
+                # an empty literal gets its element type from the sidecar's `locals` declaration
+                c = self.contract_for_frame(fr)
+                lt = (c.extra.get('locals', {}) if c is not None else {}).get(tgt.id)
+                if lt is not None:
+                    v = T.coerce(v, T.parse_ty(lt))
             fr.assign(tgt.id, v)
             return
         if isinstance(tgt, (ast.Tuple, ast.List)):
